@@ -225,7 +225,7 @@ pub fn run(cfg: &Cfg) -> Report {
     }
 
     // (B) random and structured matrices up to 5x5 (6x6 thorough), entries in [-9,9]
-    let nrand = cfg.tier.pick(30_000, 600_000);
+    let nrand = cfg.tier.pick(1_500_000, 12_000_000);
     let ctx = par_range(cfg, nrand, |ctx, k| {
         let mut rng = Rng::stream(seed, 0x14_0000_0000 + k as u64);
         let maxdim = 5;
